@@ -1,0 +1,118 @@
+//go:build verif
+
+// C04: lists, maps, indexing, slicing (comment-only; read by /verif/plvc).
+// callarg/callres/ncalls speak about the direct calls made by the function body.
+
+package runtime
+
+// ---- slices: Python semantics ------------------------------------------------------------------
+// The evaluated operands, as the code sees them (a bound whose value is nil counts as omitted)
+//@ spec slObj() any = callres(RunStmt, 0, 0)
+//@ spec slObjT() ast.DType = callres(RunStmt, 0, 1)
+//@ spec slStartV(e *ast.SliceExpr) any = e.Start == nil ? nil : callres(RunStmt, 1, 0)
+//@ spec slEndV(e *ast.SliceExpr) any = e.End == nil ? nil : callres(RunStmt, (e.Start == nil ? 1 : 2), 0)
+//@ spec slStepV(e *ast.SliceExpr) any = e.Step == nil ? nil : callres(RunStmt, (e.Start == nil ? 1 : 2) + (e.End == nil ? 0 : 1), 0)
+//@ spec slStep(e *ast.SliceExpr) int = slStepV(e) == nil ? 1 : int(slStepV(e).(int64))
+// a negative bound counts from the end; an omitted bound is the far end in the direction of travel
+//@ spec slStart(e *ast.SliceExpr, n int) int = slStartV(e) == nil ? (slStep(e) > 0 ? 0 : n - 1) : (int(slStartV(e).(int64)) < 0 ? n + int(slStartV(e).(int64)) : int(slStartV(e).(int64)))
+//@ spec slEnd(e *ast.SliceExpr, n int) int = slEndV(e) == nil ? (slStep(e) > 0 ? n : -1) : (int(slEndV(e).(int64)) < 0 ? n + int(slEndV(e).(int64)) : int(slEndV(e).(int64)))
+// clamped to the list: forward slices to [0, n], backward slices to [-1, n-1]
+//@ spec fwdStart(e *ast.SliceExpr, n int) int = slStart(e, n) < 0 ? 0 : slStart(e, n)
+//@ spec fwdEnd(e *ast.SliceExpr, n int) int = slEnd(e, n) > n ? n : slEnd(e, n)
+//@ spec bwdStart(e *ast.SliceExpr, n int) int = slStart(e, n) > n - 1 ? n - 1 : slStart(e, n)
+//@ spec bwdEnd(e *ast.SliceExpr, n int) int = slEnd(e, n) < 0 ? -1 : slEnd(e, n)
+
+//@ func RunSliceExpr
+// a list slice is a new list (never storage shared with the source)
+//@ ensures[C04] result2 == nil && result1 == ast.List ==> typeis(result0, []any) && fresh(result0.([]any))
+// forward slices: the indices taken are start, start+step, ... - every one inside [start, end), the
+// one after the last outside it - and the element taken last is the source element at its index
+// (elements taken earlier are never touched again: append only adds)
+//@ ensures[C04] result2 == nil && result1 == ast.List && slStep(expr) > 0 && len(result0.([]any)) == 0 ==> fwdStart(expr, len(slObj().([]any))) >= fwdEnd(expr, len(slObj().([]any)))
+//@ ensures[C04] result2 == nil && result1 == ast.List && slStep(expr) > 0 && len(result0.([]any)) > 0 ==> fwdStart(expr, len(slObj().([]any))) + slStep(expr) * (len(result0.([]any)) - 1) < fwdEnd(expr, len(slObj().([]any))) && slStep(expr) >= fwdEnd(expr, len(slObj().([]any))) - (fwdStart(expr, len(slObj().([]any))) + slStep(expr) * (len(result0.([]any)) - 1))
+//@ ensures[C04] result2 == nil && result1 == ast.List && slStep(expr) > 0 && len(result0.([]any)) > 0 ==> result0.([]any)[len(result0.([]any)) - 1] == slObj().([]any)[fwdStart(expr, len(slObj().([]any))) + slStep(expr) * (len(result0.([]any)) - 1)]
+// backward slices: the same, walking down
+//@ ensures[C04] result2 == nil && result1 == ast.List && slStep(expr) < 0 && len(result0.([]any)) == 0 ==> bwdStart(expr, len(slObj().([]any))) <= bwdEnd(expr, len(slObj().([]any)))
+//@ ensures[C04] result2 == nil && result1 == ast.List && slStep(expr) < 0 && len(result0.([]any)) > 0 ==> bwdStart(expr, len(slObj().([]any))) + slStep(expr) * (len(result0.([]any)) - 1) > bwdEnd(expr, len(slObj().([]any))) && slStep(expr) <= bwdEnd(expr, len(slObj().([]any))) - (bwdStart(expr, len(slObj().([]any))) + slStep(expr) * (len(result0.([]any)) - 1))
+//@ ensures[C04] result2 == nil && result1 == ast.List && slStep(expr) < 0 && len(result0.([]any)) > 0 ==> result0.([]any)[len(result0.([]any)) - 1] == slObj().([]any)[bwdStart(expr, len(slObj().([]any))) + slStep(expr) * (len(result0.([]any)) - 1)]
+// a zero step and a non-integer bound are errors
+//@ ensures[C04] slStepV(expr) != nil && ncalls(RunStmt) >= 1 && (slObjT() == ast.List || slObjT() == ast.String) && typeis(slStepV(expr), int64) && slStepV(expr).(int64) == 0 ==> result2 != nil
+//@ loop 3
+//@ invariant[C04] stepInt > 0 && stepInt == slStep(expr) && startInt == fwdStart(expr, length) && endInt == fwdEnd(expr, length) && typeis(slObj(), []any) && list == slObj().([]any) && fresh(result) && slObjT() != ast.String
+//@ invariant[C04] i == startInt + stepInt * len(result) && (len(result) > 0 ==> startInt + stepInt * (len(result) - 1) < endInt && stepInt < endInt - (startInt + stepInt * (len(result) - 1)))
+//@ invariant[C04] len(result) > 0 ==> result[len(result) - 1] == list[startInt + stepInt * (len(result) - 1)]
+//@ loop 4
+//@ invariant[C04] stepInt < 0 && stepInt == slStep(expr) && startInt == bwdStart(expr, length) && endInt == bwdEnd(expr, length) && typeis(slObj(), []any) && list == slObj().([]any) && fresh(result) && slObjT() != ast.String
+//@ invariant[C04] i == startInt + stepInt * len(result) && (len(result) > 0 ==> startInt + stepInt * (len(result) - 1) > endInt && stepInt > endInt - (startInt + stepInt * (len(result) - 1)))
+//@ invariant[C04] len(result) > 0 ==> result[len(result) - 1] == list[startInt + stepInt * (len(result) - 1)]
+
+// string slices: one byte of the source per index taken, in the same way as list slices
+//@ func RunSliceExpr
+//@ ensures[C04] result2 == nil && result1 == ast.String ==> typeis(result0, string)
+//@ ensures[C04] result2 == nil && result1 == ast.String && slStep(expr) > 0 && len(result0.(string)) == 0 ==> fwdStart(expr, len(slObj().(string))) >= fwdEnd(expr, len(slObj().(string)))
+//@ ensures[C04] result2 == nil && result1 == ast.String && slStep(expr) > 0 && len(result0.(string)) > 0 ==> fwdStart(expr, len(slObj().(string))) + slStep(expr) * (len(result0.(string)) - 1) < fwdEnd(expr, len(slObj().(string))) && slStep(expr) >= fwdEnd(expr, len(slObj().(string))) - (fwdStart(expr, len(slObj().(string))) + slStep(expr) * (len(result0.(string)) - 1))
+//@ ensures[C04] result2 == nil && result1 == ast.String && slStep(expr) > 0 && len(result0.(string)) > 0 ==> result0.(string)[len(result0.(string)) - 1] == slObj().(string)[fwdStart(expr, len(slObj().(string))) + slStep(expr) * (len(result0.(string)) - 1)]
+//@ ensures[C04] result2 == nil && result1 == ast.String && slStep(expr) < 0 && len(result0.(string)) > 0 ==> result0.(string)[len(result0.(string)) - 1] == slObj().(string)[bwdStart(expr, len(slObj().(string))) + slStep(expr) * (len(result0.(string)) - 1)]
+//@ loop 1
+//@ invariant[C04] stepInt > 0 && stepInt == slStep(expr) && startInt == fwdStart(expr, length) && typeis(slObj(), string) && str == slObj().(string) && slObjT() == ast.String
+//@ invariant[C04] (endInt <= length ==> endInt == fwdEnd(expr, length)) && (endInt > length ==> fwdEnd(expr, length) == length)
+//@ invariant[C04] i == startInt + stepInt * len(result) && (len(result) > 0 ==> startInt + stepInt * (len(result) - 1) < endInt && startInt + stepInt * (len(result) - 1) < length && stepInt <= length - 1 - (startInt + stepInt * (len(result) - 1)))
+//@ invariant[C04] len(result) > 0 ==> result[len(result) - 1] == str[startInt + stepInt * (len(result) - 1)]
+//@ loop 2
+//@ invariant[C04] stepInt < 0 && stepInt == slStep(expr) && startInt == bwdStart(expr, length) && typeis(slObj(), string) && str == slObj().(string) && slObjT() == ast.String
+//@ invariant[C04] i == startInt + stepInt * len(result)
+//@ invariant[C04] len(result) > 0 ==> result[len(result) - 1] == str[startInt + stepInt * (len(result) - 1)]
+
+// ---- index read / write with a single key (`a[k]`, `a[k] = v`) ------------------------------------
+// a negative list index counts from the end; out of range and wrongly typed keys are errors
+//@ spec normIdx(k any, n int) int = int(k.(int64)) < 0 ? n + int(k.(int64)) : int(k.(int64))
+//@ spec idxKey() any = callres(RunStmt, 0, 0)
+//@ spec idxKeyT() ast.DType = callres(RunStmt, 0, 1)
+
+//@ func searchListAndMap
+//@ ensures[C04] len(index) == 1 && typeis(obj, []any) && callres(RunStmt, 0, 2) == nil && idxKeyT() != ast.Int ==> result2 != nil
+//@ ensures[C04] len(index) == 1 && typeis(obj, []any) && callres(RunStmt, 0, 2) == nil && idxKeyT() == ast.Int && typeis(idxKey(), int64) && (normIdx(idxKey(), len(obj.([]any))) < 0 || normIdx(idxKey(), len(obj.([]any))) >= len(obj.([]any))) ==> result2 != nil
+//@ ensures[C04] len(index) == 1 && typeis(obj, []any) && callres(RunStmt, 0, 2) == nil && idxKeyT() == ast.Int && typeis(idxKey(), int64) && 0 <= normIdx(idxKey(), len(obj.([]any))) && normIdx(idxKey(), len(obj.([]any))) < len(obj.([]any)) ==> result2 == nil && ncalls(DectDataType) == 1 && callarg(DectDataType, 0, 0) == obj.([]any)[normIdx(idxKey(), len(obj.([]any)))] && result0 == callres(DectDataType, 0, 0) && result1 == callres(DectDataType, 0, 1)
+//@ ensures[C04] len(index) == 1 && typeis(obj, map[string]any) && callres(RunStmt, 0, 2) == nil && idxKeyT() != ast.String ==> result2 != nil
+//@ ensures[C04] len(index) == 1 && typeis(obj, map[string]any) && callres(RunStmt, 0, 2) == nil && idxKeyT() == ast.String && typeis(idxKey(), string) && !dom(obj.(map[string]any), idxKey().(string)) ==> result2 == nil && result0 == nil && result1 == ast.Nil
+//@ ensures[C04] len(index) == 1 && typeis(obj, map[string]any) && callres(RunStmt, 0, 2) == nil && idxKeyT() == ast.String && typeis(idxKey(), string) && dom(obj.(map[string]any), idxKey().(string)) ==> result2 == nil && ncalls(DectDataType) == 1 && callarg(DectDataType, 0, 0) == obj.(map[string]any)[idxKey().(string)] && result0 == callres(DectDataType, 0, 0)
+//@ ensures[C04] len(index) >= 1 && !typeis(obj, []any) && !typeis(obj, map[string]any) && callres(RunStmt, 0, 2) == nil ==> result2 != nil
+//@ loop 1
+//@ invariant[C04] ncalls(RunStmt) == tomath(rangeindex) + 1 && ncalls(DectDataType) == 0 && (rangeindex == -1 ==> cur == obj)
+//@ invariant[C04] rangeindex >= 0 ==> callres(RunStmt, 0, 2) == nil
+//@ invariant[C04] rangeindex == 0 && typeis(obj, []any) ==> idxKeyT() == ast.Int && typeis(idxKey(), int64) && 0 <= normIdx(idxKey(), len(obj.([]any))) && normIdx(idxKey(), len(obj.([]any))) < len(obj.([]any)) && cur == obj.([]any)[normIdx(idxKey(), len(obj.([]any)))]
+//@ invariant[C04] rangeindex == 0 && typeis(obj, map[string]any) ==> idxKeyT() == ast.String && typeis(idxKey(), string) && dom(obj.(map[string]any), idxKey().(string)) && cur == obj.(map[string]any)[idxKey().(string)]
+//@ invariant[C04] rangeindex >= 0 ==> typeis(obj, []any) || typeis(obj, map[string]any)
+
+//@ func changeListOrMapValue
+//@ ensures[C04] len(index) == 1 && typeis(obj, []any) && callres(RunStmt, 0, 2) == nil && idxKeyT() != ast.Int ==> result2 != nil
+//@ ensures[C04] len(index) == 1 && typeis(obj, []any) && callres(RunStmt, 0, 2) == nil && idxKeyT() == ast.Int && typeis(idxKey(), int64) && (normIdx(idxKey(), len(obj.([]any))) < 0 || normIdx(idxKey(), len(obj.([]any))) >= len(obj.([]any))) ==> result2 != nil
+// the write goes into the list / map itself (in place: every alias of it sees the new element)
+//@ ensures[C04] len(index) == 1 && typeis(obj, []any) && callres(RunStmt, 0, 2) == nil && idxKeyT() == ast.Int && typeis(idxKey(), int64) && 0 <= normIdx(idxKey(), len(obj.([]any))) && normIdx(idxKey(), len(obj.([]any))) < len(obj.([]any)) ==> result2 == nil && obj.([]any)[normIdx(idxKey(), len(obj.([]any)))] == val && result0 == val && result1 == dtype
+//@ ensures[C04] len(index) == 1 && typeis(obj, map[string]any) && obj.(map[string]any) != nil && callres(RunStmt, 0, 2) == nil && idxKeyT() == ast.String && typeis(idxKey(), string) ==> result2 == nil && dom(obj.(map[string]any), idxKey().(string)) && obj.(map[string]any)[idxKey().(string)] == val && result0 == val
+//@ ensures[C04] len(index) == 1 && typeis(obj, map[string]any) && callres(RunStmt, 0, 2) == nil && idxKeyT() != ast.String ==> result2 != nil
+//@ loop 1
+//@ invariant[C04] ncalls(RunStmt) == tomath(rangeindex) + 1 && (rangeindex == -1 ==> cur == obj) && lenIdx == len(index)
+//@ invariant[C04] rangeindex >= 0 ==> callres(RunStmt, 0, 2) == nil && lenIdx > 1
+
+// ---- list and map literals ---------------------------------------------------------------------------
+// a new list with one element per element expression, evaluated in order; the element added last
+// is the value of the last expression (append only adds)
+//@ func RunListInitExpr
+//@ ensures[C04] result2 == nil ==> result1 == ast.List && typeis(result0, []any) && fresh(result0.([]any)) && len(result0.([]any)) == len(expr.List) && ncalls(RunStmt) == tomath(len(expr.List))
+//@ ensures[C04] forall k mathint :: 0 <= k && k < ncalls(RunStmt) ==> callarg(RunStmt, k, 1) == expr.List[toint(k)]
+//@ ensures[C04] result2 == nil && len(expr.List) > 0 ==> result0.([]any)[len(expr.List) - 1] == callres(RunStmt, tomath(len(expr.List)) - 1, 0)
+//@ loop 1
+//@ invariant[C04] fresh(ret) && len(ret) == rangeindex + 1 && ncalls(RunStmt) == tomath(rangeindex) + 1
+//@ invariant[C04] forall k mathint :: 0 <= k && k < ncalls(RunStmt) ==> callarg(RunStmt, k, 1) == expr.List[toint(k)]
+//@ invariant[C04] rangeindex >= 0 ==> ret[rangeindex] == callres(RunStmt, tomath(rangeindex), 0)
+
+// a new map; a key that is not a string is an error; the pair added last is in the map
+//@ func RunMapInitExpr
+//@ ensures[C04] result2 == nil ==> result1 == ast.Map && typeis(result0, map[string]any) && fresh(result0.(map[string]any)) && ncalls(RunStmt) == 2 * tomath(len(expr.KeyValeList))
+//@ ensures[C04] forall i :: 0 <= i && i < len(expr.KeyValeList) && 2 * tomath(i) + 1 < ncalls(RunStmt) ==> callarg(RunStmt, 2 * tomath(i), 1) == expr.KeyValeList[i][0] && callarg(RunStmt, 2 * tomath(i) + 1, 1) == expr.KeyValeList[i][1]
+//@ ensures[C04] result2 == nil && len(expr.KeyValeList) > 0 ==> typeis(callres(RunStmt, 2 * tomath(len(expr.KeyValeList)) - 2, 0), string) && dom(result0.(map[string]any), callres(RunStmt, 2 * tomath(len(expr.KeyValeList)) - 2, 0).(string)) && result0.(map[string]any)[callres(RunStmt, 2 * tomath(len(expr.KeyValeList)) - 2, 0).(string)] == callres(RunStmt, 2 * tomath(len(expr.KeyValeList)) - 1, 0)
+//@ loop 1
+//@ invariant[C04] ret != nil && fresh(ret) && ncalls(RunStmt) == 2 * (tomath(rangeindex) + 1)
+//@ invariant[C04] forall i :: 0 <= i && i <= rangeindex ==> callarg(RunStmt, 2 * tomath(i), 1) == expr.KeyValeList[i][0] && callarg(RunStmt, 2 * tomath(i) + 1, 1) == expr.KeyValeList[i][1]
+//@ invariant[C04] rangeindex >= 0 ==> typeis(callres(RunStmt, 2 * tomath(rangeindex), 0), string) && dom(ret, callres(RunStmt, 2 * tomath(rangeindex), 0).(string)) && ret[callres(RunStmt, 2 * tomath(rangeindex), 0).(string)] == callres(RunStmt, 2 * tomath(rangeindex) + 1, 0)
